@@ -217,8 +217,10 @@ where
 
                 // Handle post-commit operations
 
-                // Check if the local member was removed by this commit
-                if mls_group.own_leaf().is_none() {
+                // Check if the local member was removed by this commit. The group is no longer
+                // active then; looking at the own leaf alone is not enough because a member added by
+                // the same commit can occupy the freed leaf.
+                if !mls_group.is_active() || mls_group.own_leaf().is_none() {
                     return match self.handle_local_member_eviction(&group.mls_group_id, event) {
                         Ok(_) => Ok(MessageProcessingResult::Commit {
                             mls_group_id: group.mls_group_id.clone(),
